@@ -253,7 +253,9 @@ CHECKS = {
              "resolve_property_with / resolve_neighbors_with and no coercion is reachable; the semantic accessors read what "
              "they name (to_many = list, at_least_one = non-null, is_interface = interface kind), properties/edges partition "
              "fields by vertex-typedness, entry points are the root query type's fields and the root type is not a vertex type; "
-             "decision table of the computed EdgeParameter.default (declared default, else null if nullable, else none).",
+             "decision table of the computed EdgeParameter.default (declared default, else null if nullable, else none); the "
+             "property / edge resolvers evaluated over every field-type shape (scalars, lists nested up to three levels, vertices): "
+             "every field is listed exactly once, on the right side, with its exact type.",
         note="trusted: async-graphql-parser's TypeDefinition/FieldDefinition meaning; exactness for a concrete schema is not decided beyond these clauses",
         technique="static analysis: string-dispatch table extraction vs the schema file + accessor footprint rules over typed HIR",
         design_ref="DESIGN.md section 4 C20"),
